@@ -247,10 +247,10 @@ Proof. vm_compute. repeat split. Qed.
 
 (* the repaired order on the same witness: closed *)
 Example C13_example_stream_first :
-  let w' := fstep x_users gen_table pathcond_defs gen_react gen_wrapped (ctx_stream_first "file_out")
-                  (ctx_stream_first "file_in") gen_clist gen_cmlsd 4 (x_world [false; false; true]) (ev "retr" "g") in
-  params_ok pathcond_defs gen_react gen_wrapped (ctx_stream_first "file_out") (ctx_stream_first "file_in")
+  let w' := fstep x_users gen_table pathcond_defs gen_react gen_wrapped (ctx_stream_first "file")
+                  (ctx_stream_first "file") gen_clist gen_cmlsd 4 (x_world [false; false; true]) (ev "retr" "g") in
+  params_ok pathcond_defs gen_react gen_wrapped (ctx_stream_first "file") (ctx_stream_first "file")
             gen_clist gen_cmlsd = true /\
-  stream_first_ok (ctx_stream_first "file_out") (ctx_stream_first "file_in") = true /\
+  stream_first_ok (ctx_stream_first "file") (ctx_stream_first "file") = true /\
   fw_codes w' = [c150; c451] /\ fw_dst w' = StClosed.
 Proof. vm_compute. repeat split. Qed.
